@@ -5,10 +5,12 @@ Importing this module installs them (DESIGN.md section 3.1 / 3.2):
  E1  int(obj)         -> obj's pure-Python __int__  (tpmstream numeric emulation)
  E2  range(obj, ..)   -> obj's pure-Python __index__
  E3  fnutil.set_first_arg_type tolerates zero-argument callables
- E4  SymbolicInt & mask (concrete non-negative mask): exact div/mod decomposition
+ E4  SymbolicInt & mask (concrete mask; negative masks as x - (x & ~mask)): exact div/mod decomposition
  E5  inspect.getmembers on concrete classes runs untraced
  E6  format(obj, spec) -> obj's pure-Python __format__
  E7  no short-circuiting of contract-bearing callees
+ E10 x | y, x ^ y with provably disjoint bits -> x + y
+ E11 functools.lru_cache really caches (CrossHair skips it)
  B1  int(<=2 bytes, 16) traced-Python model
  B2  format(symbolic int, x/X/b/d specs) with symbolic digits
  B3  format(symbolic str, <N >N ^N)
@@ -183,16 +185,17 @@ _orig_and = SymbolicInt.__and__
 
 def _and(self, other):
     with NoTracing():
-        if type(other) is int and other >= 0:
+        if type(other) is int:
             space = context_statespace()
             if space.smt_fork(self.var >= 0, probability_true=0.9):
                 HIT.add("E4")
+                # a negative mask clears the bits of ~mask: x & m == x - (x & ~m) for x >= 0
                 acc = z3.IntVal(0)
-                for lo, hi in _runs(other):
+                for lo, hi in _runs(other if other >= 0 else ~other):
                     acc = acc + (
                         (self.var / z3.IntVal(2**lo)) % z3.IntVal(2 ** (hi - lo))
                     ) * z3.IntVal(2**lo)
-                return SymbolicInt(acc)
+                return SymbolicInt(acc if other >= 0 else self.var - acc)
     return _orig_and(self, other)
 
 
@@ -633,3 +636,12 @@ SymbolicInt.__or__ = lambda self, other: _bitop(self, other, _orig_or)
 SymbolicInt.__ror__ = lambda self, other: _bitop(self, other, _orig_or)
 SymbolicInt.__xor__ = lambda self, other: _bitop(self, other, _orig_xor)
 SymbolicInt.__rxor__ = lambda self, other: _bitop(self, other, _orig_xor)
+
+# ---------------------------------------------------------------- E11: lru_cache is executed, not skipped
+# CrossHair calls the function under an lru_cache directly (no hashing of symbolic arguments, no state
+# across paths).  That hides every defect of a memo (wrong key, eviction) from the analysis.  The real
+# cache runs here instead: hashing a symbolic key realises it (a stated concretisation), and
+# engine/explore.py empties caches that a path filled before the next path starts.
+import functools as _functools
+
+_PATCH_REGISTRATIONS.pop(_functools._lru_cache_wrapper.__call__, None)
